@@ -197,6 +197,26 @@ impl Blob
         );
     }
 
+    /*  A target that has just been recovered or downloaded is another file than the one its
+        remembered FileState describes (it can even carry the same modified date), so the
+        timestamp optimization must not be applied to it.  This forgets those FileStates. */
+    pub fn forget_replaced_file_states
+    (
+        self : &mut Self,
+        resolutions : &Vec<FileResolution>
+    )
+    {
+        for (target_info, resolution) in self.file_infos.iter_mut().zip(resolutions.iter())
+        {
+            match resolution
+            {
+                FileResolution::Recovered | FileResolution::Downloaded =>
+                    target_info.file_state = FileState::empty(),
+                _ => {},
+            }
+        }
+    }
+
     pub fn get_file_infos
     (
         self : &Self
